@@ -375,6 +375,16 @@ class ArrayExpr(SingletonExpr):
     # (aligned Blockwise / Elemwise), see ``_slice_pushdown``.
     _unifies_operand_chunks = False
 
+    @staticmethod
+    def _onto_advertised_chunks(result, chunks):
+        """``result`` rechunked to ``chunks``; None (decline the rewrite) when
+        sizes are unknown and a rechunk cannot be planned."""
+        if any(math.isnan(c) for dim in (*chunks, *result.chunks) for c in dim):
+            return None
+        from dask_array._rechunk import Rechunk
+
+        return Rechunk(result, chunks, None, None, False, None)
+
     def _has_grid_sensitive_dependent(self, expr, dependents):
         for ref in dependents.get(expr._name, ()):
             node = ref()
@@ -459,8 +469,8 @@ class ArrayExpr(SingletonExpr):
             # Slicing the operands and unifying their chunks again can settle
             # on another layout than the sliced result advertises, and
             # consumers were built against that one (block counts decide e.g.
-            # whether a contraction sums or squeezes).
-            return None
+            # whether a contraction sums or squeezes): bring it back.
+            result = self._onto_advertised_chunks(result, slice_expr.chunks)
         if result is not None:
             # The push only proceeds when every other consumer is itself a slice
             # (checked above), so ``self`` is normally replaced outright by the
@@ -510,7 +520,7 @@ class ArrayExpr(SingletonExpr):
         if result is not None and self._unifies_operand_chunks and not _chunks_match(result.chunks, shuffle_expr.chunks):
             # As in ``_slice_pushdown``: unifying the taken operands again
             # must not move the result off the chunks the take advertises.
-            return None
+            result = self._onto_advertised_chunks(result, shuffle_expr.chunks)
         if result is not None:
             # No other dependents (checked above), so ``self`` is fully
             # replaced: unlink so a transitive shuffle descends this same pass.
